@@ -1,18 +1,38 @@
 """C05 - condition events fire exactly when their predicate first holds, with exact value."""
-from harness import kprops
+from harness import kprops, koracle
 ASSUMPTIONS = ['condition trees of depth <= 3 over timeouts, shared events and processes; one environment (the mixed-environment refusal is checked by a direct call)']
 SPEC = [(8, 'cond'), (1, 'outcome'), (1, 'plan:cond')]
 def run(ctx):
-    res = kprops.run_kernel(ctx, 'C05', SPEC, 2000, 60000, oracles=[kprops.oracle_time_monotone],
+    res = kprops.run_kernel(ctx, 'C05', SPEC, 2000, 60000, oracles=[kprops.oracle_time_monotone, koracle.oracle_c05],
                             nontrivial=lambda c, lines: any(' got cv[' in l for l in lines),
                             rule='seeded random script programs; non-trivial = distinct script in which a process received a ConditionValue')
-    # mixing environments is refused with ValueError (direct call on the implementation)
+    # mixing environments is refused with ValueError (direct calls on the implementation; every shape of "mixed")
     from onl.sim import Environment, AllOf, AnyOf
+    shapes = {
+        'native + foreign operand': lambda e1, e2: [e1.timeout(1), e2.timeout(1)],
+        'foreign + native operand': lambda e1, e2: [e2.timeout(1), e1.event()],
+        'one foreign operand only': lambda e1, e2: [e2.event()],
+        'all operands foreign': lambda e1, e2: [e2.timeout(1), e2.timeout(2)],
+        'foreign nested condition': lambda e1, e2: [e2.timeout(1) & e2.timeout(2)],
+        'foreign operand last of three': lambda e1, e2: [e1.timeout(1), e1.event(), e2.event()],
+    }
+    nshape = 0
     for cls in (AllOf, AnyOf):
+        for name, mk in shapes.items():
+            e1, e2 = Environment(), Environment()
+            nshape += 1
+            try:
+                cls(e1, mk(e1, e2))
+                res['oracle_failures'].append({'what': f'{cls.__name__} of environment 1 accepted events of another environment ({name})',
+                                               'signature': 'cond-env-mismatch', 'case': {'shape': name, 'cls': cls.__name__}})
+            except ValueError:
+                pass
+    for op in ('&', '|'):
         e1, e2 = Environment(), Environment()
         try:
-            cls(e1, [e1.timeout(1), e2.timeout(1)])
-            res['oracle_failures'].append({'what': f'{cls.__name__} accepted events of two environments', 'signature': 'cond-env-mismatch', 'case': None})
+            (e1.timeout(1) & e2.timeout(1)) if op == '&' else (e1.timeout(1) | e2.timeout(1))
+            res['oracle_failures'].append({'what': f'`{op}` accepted events of two environments', 'signature': 'cond-env-mismatch', 'case': {'op': op}})
         except ValueError:
             pass
+    res['coverage']['environment_mix_shapes_checked'] = nshape + 2
     return res
